@@ -568,26 +568,29 @@ class RedlineEngine:
         if unindexed_edits:
             unindexed_edits.sort(key=lambda x: len(x.target_text), reverse=True)
             self.mapper._build_map()
+            # Fix 5.6: Check for overlaps in heuristic path too.
+            # Overlaps are decided once, on the text as it stands before any heuristic edit: every applied edit
+            # rebuilds the map, so a position found later cannot be compared with a range recorded earlier.
+            planned: List[Optional[Tuple[int, int]]] = []
             for edit in unindexed_edits:
-                # Fix 5.6: Check for overlaps in heuristic path too
+                planned_range = None
                 if edit.target_text:
                     start_idx, match_len = self.mapper.find_match_index(edit.target_text)
                     if start_idx != -1:
-                        end_idx = start_idx + match_len
-                        if any(start_idx < occ_end and end_idx > occ_start for occ_start, occ_end in occupied_ranges):
-                            logger.warning(f"Skipping overlapping heuristic edit at index {start_idx}")
-                            skipped += 1
-                            continue
-                        if self._apply_single_edit_heuristic(edit):
-                            applied += 1
-                            occupied_ranges.append((start_idx, end_idx))
-                            self.mapper._build_map()
-                            self.clean_mapper = None
-                        else:
-                            skipped += 1
+                        planned_range = (start_idx, start_idx + match_len)
+                planned.append(planned_range)
+
+            for edit, planned_range in zip(unindexed_edits, planned):
+                if planned_range is not None:
+                    start_idx, end_idx = planned_range
+                    if any(start_idx < occ_end and end_idx > occ_start for occ_start, occ_end in occupied_ranges):
+                        logger.warning(f"Skipping overlapping heuristic edit at index {start_idx}")
+                        skipped += 1
                         continue
                 if self._apply_single_edit_heuristic(edit):
                     applied += 1
+                    if planned_range is not None:
+                        occupied_ranges.append(planned_range)
                     self.mapper._build_map()
                     self.clean_mapper = None
                 else:
